@@ -228,6 +228,16 @@ class Puppet(object):
             for r in self._emit(msg, rfb, uh):
                 yield r
             return
+        if kind == "insert-nohash":
+            # an on-path attacker's insertion: the puppet's own transcript
+            # does not contain it (a victim that silently drops the message
+            # then still agrees on the Finished value)
+            ins = build_insert(self.conn, act[1])
+            for r in self._emit(ins, True, False):
+                yield r
+            for r in self._emit(msg, rfb, uh):
+                yield r
+            return
         if kind == "replace":
             for r in self._emit(RawMsg(msg.contentType, act[1]), rfb, uh):
                 yield r
@@ -287,6 +297,15 @@ class Puppet(object):
             if ins.contentType != msg.contentType:
                 raise NotQueueable(act[1])
             self._q(ins)
+            self._q(msg)
+        elif act[0] == "insert-nohash":
+            ins = build_insert(self.conn, act[1])
+            if ins.contentType != msg.contentType:
+                raise NotQueueable(act[1])
+            self.sent.append(token_of(ins))
+            self.conn._buffer += ins.write()
+            if self.conn._buffer_content_type is None:
+                self.conn._buffer_content_type = ins.contentType
             self._q(msg)
         elif act[0] == "replace":
             self._q(RawMsg(msg.contentType, act[1]))
